@@ -42,7 +42,8 @@ def close_order(r, F):
         if sl.upvars & mir.upvars_from_param(F, fn, 4):
             tt, ft = tables.bool_switch_targets(sw)
             guards.append((sw.idx, tt, ft))
-    okf = any(fn.edge_guards(sw, tt, fl[0].idx) and fl[0].idx not in fn.reachable([ft], avoid=[sw]) for (sw, tt, ft) in guards)
+    # "iff": guarded by the flag, never on its false edge, and on its true edge ALWAYS (no second condition)
+    okf = any(fn.edge_guards(sw, tt, fl[0].idx) and fl[0].idx not in fn.reachable([ft], avoid=[sw]) and fn.must_pass(tt, [fl[0].idx]) for (sw, tt, ft) in guards)
     r.require(okf, fn, "flush iff flush_on_close", "memory is flushed exactly when flush_on_close is set", "Cache::flush is not control-dependent on flush_on_close (or runs when it is off)", ln=fl[0].term.ln)
     # the flush future is awaited to completion before the close future is first polled (async fns do nothing until polled):
     # the poll of storage.close() is reachable from the flush only over the Ready edge of the flush's poll
@@ -284,6 +285,7 @@ def run(chk, F):
     chk.run_rule("C15.queue-gate", "the submit-queue admission counter is released for every received entry by the amount added for it; the gate drops only above the threshold", 6, queue_gate, F)
     chk.run_rule("C15.engine-waits", "BlockEngine::wait awaits a Wait round-trip through every flusher and the reclaimers; waiters are answered only on io completion", 4, engine_waits, F)
     chk.run_rule("C15.drop-closes", "Drop and close() run close_inner with the cache's own flag and tiers", 2, drop_closes, F)
+    chk.run_rule("C15.enqueue-guards-exact", "no extra condition guards the disk write of a flushed / evicted entry", 5, C12.enqueue_guards_exact, F)
     chk.run_rule("C15.inmem-guard", "every Store::enqueue of the hybrid layer is control-dependent on location != InMem", 5, C12.inmem_guard, F)
     from rules import mustcall
     mustcall.run_for(chk, F, "C15")
